@@ -4,6 +4,19 @@ from selftest.mutants import M, T
 
 EXTRA = {}
 
+EXTRA["C03"] = [
+    M("field-add-cond-sub-gt", "pecc.py", "        num = (self.num + other.num) % self.prime\n",
+      "        num = self.num + other.num\n        if num > self.prime:\n            num -= self.prime\n", ["C03.10"], "sum equal to the prime is not reduced"),
+    T("field-add-cond-sub-ge", "pecc.py", "        num = (self.num + other.num) % self.prime\n",
+      "        num = self.num + other.num\n        if num >= self.prime:\n            num -= self.prime\n", ["C03.10"], "conditional subtraction, correct bound"),
+    M("field-ctor-le", "pecc.py", "        if num >= prime or num < 0:\n", "        if num > prime or num < 0:\n", ["C03.10"], "constructor accepts num == prime"),
+    M("s256-init-reduces", "pecc.py", "            super().__init__(x=S256Field(x), y=S256Field(y), a=a, b=b)\n",
+      "            super().__init__(x=S256Field(x % P), y=S256Field(y % P), a=a, b=b)\n", ["C03.11"], "coordinates >= p folded into the field"),
+    M("parse-sec-no-length", "pecc.py", "        if len(sec_bin) != 33:\n            raise ValueError(\"a compressed SEC pubkey is 33 bytes\")\n", "", ["C03.12"], "compressed tag accepted with 65 bytes"),
+    T("parse-sec-length-first", "pecc.py", "        if sec_bin[0] not in (2, 3):\n            raise ValueError(f\"Unknown SEC prefix {sec_bin[0]}\")\n        if len(sec_bin) != 33:\n            raise ValueError(\"a compressed SEC pubkey is 33 bytes\")\n",
+      "        if len(sec_bin) != 33 or sec_bin[0] not in (2, 3):\n            raise ValueError(f\"Unknown SEC prefix {sec_bin[0]}\")\n", ["C03.12", "C03.1"], "one combined test"),
+]
+
 EXTRA["C04"] = [
     M("fetch-cache-before-check", "tx.py", "            tx = Tx.parse(BytesIO(raw), network=network)\n", "            tx = cls.cache[tx_id] = Tx.parse(BytesIO(raw), network=network)\n",
       ["C04.7"], "the response is cached (chained assignment) before its id is compared with the requested id"),
